@@ -31,4 +31,5 @@ Fixpoint stream_prefix (next_idx : Z -> option Z) (next_val : Z -> Q -> option Q
       end
   end.
 
-Fixpoint qsum (l : list Q) : Q := match l with [] => 0%Q | x :: r => (x + qsum r)%Q end.
+(** sum of a list (fractions are reduced after every addition so that evaluation stays fast; same value) *)
+Fixpoint qsum (l : list Q) : Q := match l with [] => 0%Q | x :: r => Qred (x + qsum r)%Q end.
